@@ -323,6 +323,69 @@ print(json.dumps(out))
 '''
 
 
+DATAMODEL_CHILD = r'''
+import ctypes, json, sys
+if sys.argv[1] == 'llp64':
+    # an LLP64 host (Windows): C long / unsigned long are 32 bits wide - in place BEFORE the library is imported
+    ctypes.c_long, ctypes.c_ulong = ctypes.c_int32, ctypes.c_uint32
+from mc import ev as E
+from mc import domains as D
+from pykdebugparser.traces_parser import TracesParser
+names = json.loads(sys.stdin.read())
+BASE_S = (0x1111, 0x2222, 0x3333, 0x4444)
+wide = (1 << 31, (1 << 32) + 5, 1 << 63, (1 << 64) - 1)
+out = {}
+for name in names:
+    base, _ = D.in_domain(name, 'se', BASE_S, (0, 0, 0, 0), 1)
+    en = D.enums(name, 'se')
+    cases = []
+    for k in range(4):
+        if ('s%d' % k) in en or (name == 'BSC_ioctl' and k == 1):
+            continue
+        for w in wide:
+            sw = list(base)
+            sw[k] = w
+            cases.append((tuple(sw), (0, 0x55, 0x66, 0x77)))
+    for w in wide:
+        cases.append((tuple(base), (0, w, 0x66, 0x77)))
+    res = []
+    for sw, ew in cases:
+        p = TracesParser(E.codes(), {}, {})
+        try:
+            t = [t for t in p.feed_generator(E.restamp([E.ev(name, 1, sw), E.ev(name, 2, ew)]))]
+            res.append([list(sw), list(ew), str(t[-1])])
+        except Exception as ex:
+            res.append([list(sw), list(ew), 'RAISED ' + type(ex).__name__])
+    out[name] = res
+print(json.dumps(out))
+'''
+
+
+def judge_c_data_model(names):
+    """the C data model of the host: two child interpreters render every BSD decoder with wide words in each numeric START position
+    and in the END return position - one as it is (LP64), one with ctypes.c_long / c_ulong replaced by the 32-bit types before the
+    library is imported (LLP64, Windows): the texts are the same."""
+    import json
+    import subprocess
+    import sys
+    got = {}
+    for model in ('lp64', 'llp64'):
+        r = subprocess.run([sys.executable, '-c', DATAMODEL_CHILD, model], input=json.dumps(list(names)), capture_output=True, text=True, timeout=600)
+        if r.returncode != 0:
+            return [('harness:datamodel-child-failed', {'decoder': names[0]}, {'model': model, 'stderr': r.stderr[-300:]})], 0
+        got[model] = json.loads(r.stdout.strip().splitlines()[-1])
+    bad = []
+    n = 0
+    for name in names:
+        for a, b in zip(got['lp64'][name], got['llp64'][name]):
+            n += 1
+            if a != b:
+                bad.append((f'host-dependent-output:c-data-model@{name}', {'decoder': name, 'start': [hex(x) for x in a[0]], 'end': [hex(x) for x in a[1]]},
+                            {'lp64_host': a[2], 'llp64_host': b[2]}))
+                break
+    return bad, n
+
+
 def judge_host_locale():
     """the same dump (non-ASCII path, thread name, global string, process name) and the same UTF-8 code-table file, in child
     interpreters started under different host locale settings: the output is the same."""
@@ -356,7 +419,7 @@ class C18(Check):
             'restored after each case. Inputs: every BSD decoder x END error word 0..255 and 9999; every BSD decoder x every numeric START position x value 0..64 (a word that a new code path looks up in a host table shows here); sigaction x signal 0..40; '
             'socket/socketpair/socket_delegate x family 0..45 x type 0..7; get/setsockopt x level {0,1,6,0xffff} x every declared '
             'SO_ option + 2 undeclared. Oracle: the rendered text (or the exception type) is identical under every configuration. '
-            'Plus the log / trace / event lines of one version-3 dump (log records near midnight) with the timezone option unset and set, under the host time zones UTC, EST5EDT, NZST-12NZDT, IST-5:30: identical. Plus child interpreters started under three host locale settings (UTF-8 locale; C locale without coercion, i.e. ASCII file-system and default text encoding; POSIX with UTF-8 mode) formatting one dump with non-ASCII path / thread name / global string / process name and loading one UTF-8 code-table file: identical. Plus a static scan of every import in pykdebugparser/** against the list of host-dependent stdlib modules: anything '
+            'Plus the log / trace / event lines of one version-3 dump (log records near midnight) with the timezone option unset and set, under the host time zones UTC, EST5EDT, NZST-12NZDT, IST-5:30: identical. Plus every BSD decoder with words 2^31, 2^32+5, 2^63, 2^64-1 in each numeric START position and in the END return word, in two child interpreters, one of which has ctypes.c_long / c_ulong replaced by the 32-bit types before the library is imported (an LLP64 host): identical. Plus child interpreters started under three host locale settings (UTF-8 locale; C locale without coercion, i.e. ASCII file-system and default text encoding; POSIX with UTF-8 mode) formatting one dump with non-ASCII path / thread name / global string / process name and loading one UTF-8 code-table file: identical. Plus a static scan of every import in pykdebugparser/** against the list of host-dependent stdlib modules: anything '
             'beyond the three modelled seams is a violation. states = configurations; transitions = renders; non-trivial = input '
             'whose rendering shows a host-table name under at least one configuration.')
     assumptions = ('the host is modelled by the interpreter tables the code imports today plus the import scan; a dependency through '
@@ -371,7 +434,7 @@ class C18(Check):
         names = [n for n in D.decoder_names() if n.startswith('BSC_')]
         return [('errno', ch) for ch in chunked(names, 32)] + [('small', ch) for ch in chunked(names, 32)] + [('signal',), ('socket', 'BSC_socket'), ('socket', 'BSC_socketpair'),
                                                                ('socket', 'BSC_socket_delegate'), ('sockopt', 'BSC_getsockopt'),
-                                                               ('sockopt', 'BSC_setsockopt'), ('imports',), ('tz',), ('locale',)]
+                                                               ('sockopt', 'BSC_setsockopt'), ('imports',), ('tz',), ('locale',)] + [('datamodel', ch) for ch in chunked(names, 48)]
 
     def _compare(self, acc, name, s, e):
         cfgs = configurations()
@@ -432,6 +495,11 @@ class C18(Check):
             for lvl in (0, 1, 6, 0xffff):
                 for o in opts:
                     self._compare(acc, desc[1], (3, lvl, o, 0x4444), (0, 0, 0, 0))
+        elif kind == 'datamodel':
+            bad, n = judge_c_data_model(desc[1])
+            for sig, case, detail in bad:
+                acc.violation(sig, dict(case, kind='datamodel'), detail)
+            acc.case(nontrivial=True, transitions=2 * n, state=h64('datamodel'))
         elif kind == 'locale':
             for sig, detail in judge_host_locale():
                 acc.violation(sig, {'kind': 'locale'}, detail)
@@ -451,6 +519,8 @@ class C18(Check):
             return judge_host_timezone()
         if case.get('kind') == 'locale':
             return judge_host_locale()
+        if case.get('kind') == 'datamodel':
+            return [(sig, detail) for sig, c, detail in judge_c_data_model([case['decoder']])[0]]
         if case.get('kind') == 'import':
             return [(f"unmodelled-host-dependent-import:{m}@{r}", {}) for r, m in import_scan() if r == case['file'] and m == case['module']]
         s = tuple(int(x, 16) for x in case['start'])
